@@ -125,6 +125,7 @@ def evalRl (st : DState) (name : String) (t : List String) (impl : String) : Eva
      | none => { st := st, model := "panic:no-object" })
   | "builder" :: calls =>
     let calls := calls.filter (· ≠ ":")
+    let implToks := (impl.splitOn " ").filter (· ≠ "")
     let obsM := fun (b : RLBuilder) => s!"{b.len},{b.ones}"
     let obsR := fun (r : RlRef) => s!"{r.len},{r.ones}"
     let step := fun (acc : List String × Option RLBuilder × List String × RlRef) (c : String) =>
@@ -136,7 +137,24 @@ def evalRl (st : DState) (name : String) (t : List String) (impl : String) : Eva
           let mo' := match RL.ofBuilder m b with
             | .ok v => mo ++ [s!"conv:{",".intercalate (((rlC m).ser v).map rWord)}"]
             | .fault e => mo ++ [renderFault e]
-          (mo', some b, so ++ ["conv:*"], r)
+          -- spec for the conversion: the implementation's own bytes must decode (through the loader and the run iterator)
+          -- to exactly the accepted runs and length
+          let implTok := implToks[so.length]?.getD ""
+          let content : Option (Nat × List (Nat × Nat)) :=
+            if implTok.startsWith "conv:" then
+              match (rlC m).load ((csvNats (implTok.drop 5).toString).map (BitVec.ofNat 64)) with
+              | .ok (v, _) =>
+                let rec drain (fuel : Nat) (it : RunIter) (acc : List (Nat × Nat)) : List (Nat × Nat) :=
+                  match fuel with
+                  | 0 => acc
+                  | fuel + 1 => match it.nextQ m v with
+                    | .ok (some x, it') => drain fuel it' (acc ++ [x])
+                    | _ => acc
+                (match v.runIter with | .ok it => some (v.len, drain (v.data.len + 2) it []) | _ => none)
+              | .fault _ => none
+            else none
+          let specTok := if content == some (r.len, r.runs) then implTok else s!"conv:content-should-be-len={r.len},runs={r.runs.length}"
+          (mo', some b, so ++ [specTok], r)
         else
           let (mo', ob') := match rlModelCall m b c with
             | .ok (some b') => (mo ++ [s!"ok:{obsM b'}"], some b')
